@@ -53,6 +53,16 @@ def cache(func):
     return wrapper
 
 
+def shifted_eye(sparse_lib, N, k=0):
+    """
+    Same as `sparse_lib.eye(N, k=k)`, but also defined when the k-th diagonal lies outside of the matrix, which
+    happens for very small resolutions. In that case, you get an empty matrix of the correct shape.
+    """
+    if abs(k) < N:
+        return sparse_lib.eye(N, k=k)
+    return sparse_lib.csc_matrix((N, N))
+
+
 class vkFFT(object):
     """
     pyVkFFT FFT backend.
@@ -444,10 +454,10 @@ class ChebychevHelper(SpectralHelper1D):
 
         def get_forward_conv(name):
             if name == 'T2U':
-                mat = (sp.eye(N) - sp.eye(N, k=2)).tocsc() / 2.0
+                mat = (sp.eye(N) - shifted_eye(sp, N, k=2)).tocsc() / 2.0
                 mat[:, 0] *= 2
             elif name == 'D2T':
-                mat = sp.eye(N) - sp.eye(N, k=2)
+                mat = sp.eye(N) - shifted_eye(sp, N, k=2)
             elif name[0] == name[-1]:
                 mat = self.sparse_lib.eye(self.N)
             else:
@@ -462,7 +472,7 @@ class ChebychevHelper(SpectralHelper1D):
                 import scipy.sparse as sp
 
                 if self.sparse_lib == sp:
-                    mat = self.sparse_lib.linalg.inv(fwd.tocsc())
+                    mat = self.sparse_lib.csc_matrix(self.sparse_lib.linalg.inv(fwd.tocsc()))
                 else:
                     mat = self.sparse_lib.csc_matrix(sp.linalg.inv(fwd.tocsc().get()))
             except NotImplementedError:
@@ -747,7 +757,7 @@ class ChebychevHelper(SpectralHelper1D):
         N = self.N
         sp = self.sparse_lib
 
-        return sp.eye(N) - sp.eye(N, k=2)
+        return sp.eye(N) - shifted_eye(sp, N, k=2)
 
 
 class UltrasphericalHelper(ChebychevHelper):
@@ -775,6 +785,8 @@ class UltrasphericalHelper(ChebychevHelper):
         xp = self.xp
         N = self.N
         l = p
+        if N <= l:
+            return sp.csc_matrix((N, N))
         return 2 ** (l - 1) * factorial(l - 1) * sp.diags(xp.arange(N - l) + l, offsets=l) / self.lin_trf_fac**p
 
     def get_S(self, lmbda):
@@ -792,14 +804,14 @@ class UltrasphericalHelper(ChebychevHelper):
 
         if lmbda == 0:
             sp = scipy.sparse
-            mat = ((sp.eye(N) - sp.eye(N, k=2)) / 2.0).tolil()
+            mat = ((sp.eye(N) - shifted_eye(sp, N, k=2)) / 2.0).tolil()
             mat[:, 0] *= 2
         else:
             sp = self.sparse_lib
             xp = self.xp
-            mat = sp.diags(lmbda / (lmbda + xp.arange(N))) - sp.diags(
-                lmbda / (lmbda + 2 + xp.arange(N - 2)), offsets=+2
-            )
+            mat = sp.diags(lmbda / (lmbda + xp.arange(N)))
+            if N > 2:
+                mat = mat - sp.diags(lmbda / (lmbda + 2 + xp.arange(N - 2)), offsets=+2)
 
         return self.sparse_lib.csc_matrix(mat)
 
